@@ -26,6 +26,9 @@ func checkC08(c *Ctx) {
 	c.Expect("C08.3", 2)
 	c.Expect("C08.4", 3)
 	c.Expect("C08.7", 2)
+	// "exactly when a quorum timed out", forming direction: a timeout is left out of the collection only because it
+	// could not be verified (shared with C05.12: no drop on view distance or any other heuristic)
+	c05DropOnlyUnverified(c, "C08.9")
 
 	ort := p.Method("protocol/synchronizer", "Synchronizer", "OnRemoteTimeout")
 	add := p.Method("protocol/synchronizer", "timeoutCollector", "add")
